@@ -15,7 +15,7 @@ BUDGET = {"quick": 240, "thorough": 2400}
 def configs(tier):
     cs = [Config(levels=1, ndisks=2),
           Config(levels=2, ndisks=3, hashsize=8, hashkind="spooky2", contents=["c0/content", "d1/.content", "c1/content"]),
-          Config(levels=3, z=True, ndisks=2, splits={0: 2, 1: 2, 2: 3}, parity_limit=4096),
+          Config(levels=3, z=True, ndisks=2, splits={0: 2, 1: 2, 2: 3}, parity_limit=4096, uuid=True),
           Config(levels=2, ndisks=3, tag="hole")]
     if tier == "thorough":
         cs += [Config(levels=6, ndisks=3, hashsize=16, hashkind="spooky2"),
